@@ -16,7 +16,7 @@ if props is None:
         p = json.loads(l)
         if files & set(p["anchors"]["files"]):
             props.append(p["id"])
-wt = "/tmp/harmwt_" + name
+wt = "/tmp/harmwt_%s_%d" % (name, os.getpid())
 subprocess.run(["git", "-C", "/repo", "worktree", "remove", "--force", wt], capture_output=True)
 subprocess.run(["git", "-C", "/repo", "worktree", "add", "-q", "--detach", wt, "HEAD"], check=True)
 res = {"files": sorted(files), "props": props, "checks": {}, "repo_head": subprocess.run(["git", "-C", "/repo", "rev-parse", "--short", "HEAD"], capture_output=True, text=True).stdout.strip()}
